@@ -1536,7 +1536,8 @@ package snaps
 //@   ensures [obsolete_sound] forall k in 0..len(obsolete): !has(registry, obsolete[k]) && !has(registeredStandaloneTests, obsolete[k])
 //@   ensures [used_sound] forall k in 0..len(used): has(registry, used[k]) && contains(baseOf(used[k]), ".snap")
 //@   ensures [files_reported] forall p Str {dirOf(p)}: has(registry, p) || has(registeredStandaloneTests, p) ==> dirDone(registry != nil, dom(registry), registeredStandaloneTests != nil, dom(registeredStandaloneTests), dirOf(p), runOnly, elems(obsolete))
-//@   let inv = protected && (!shouldUpdate ==> fsx == old(fsx) && fswrites == old(fswrites))
+//@   ensures [stdout_grows] len(stdout) >= len(old(stdout))
+//@   let inv = protected && (!shouldUpdate ==> fsx == old(fsx) && fswrites == old(fswrites)) && len(stdout) >= len(old(stdout))
 //@       && (forall k in 0..len(obsolete): !has(registry, obsolete[k]) && !has(registeredStandaloneTests, obsolete[k])) && (forall k in 0..len(used): has(registry, used[k]) && contains(baseOf(used[k]), ".snap"))
 //@       && (forall r0 Ref: old(alloc)[r0] ==> domheap("map[string]struct{}")[r0] == old(domheap("map[string]struct{}"))[r0] && valheap("map[string]struct{}")[r0] == old(valheap("map[string]struct{}"))[r0])
 //@       && uniqueDirs != nil && !old(alloc)[uniqueDirs] && (registry != nil ==> old(alloc)[registry]) && (registeredStandaloneTests != nil ==> old(alloc)[registeredStandaloneTests])
@@ -1678,7 +1679,7 @@ package snaps
 //@   dead ret2
 //@   requires quiescent && count >= 1 && skippedTests != nil
 //@   requires forall p Str, id Str {registry[p][id]}: has(registry, p) && has(registry[p], id) ==> registry[p][id] >= 0
-//@   assigns fsc, fswrites, alloc, stdout
+//@   assigns fsc, fswrites, alloc
 //@   ensures [nonsnap] forall p Str {fsc[p]}: (forall k in 0..len(used): used[k] != p) ==> fsc[p] == old(fsc)[p]
 //@   ensures [noop] !update && !sort ==> fswrites == old(fswrites) && fsc == old(fsc)
 //@   ensures [only_used] forall p Str {fsc[p]}: (forall k in 0..len(used): used[k] != p) ==> fsc[p] == old(fsc)[p]
@@ -1808,6 +1809,7 @@ package snaps
 //@   let mayClean = !isCI && (updateVAR == "true" || updateVAR == "clean")
 //@   let maySort = !isCI && len(opts) != 0 && opts[0].Sort
 //@   ensures [ci_readonly] isCI ==> fswrites == old(fswrites) && fsx == old(fsx) && fsc == old(fsc)
+//@   ensures [summary_printed] len(skippedTests.values) > 0 ==> len(stdout) > len(old(stdout))
 //@   ensures [report_only] !mayClean ==> fsx == old(fsx)
 //@   ensures [no_sort_no_clean] !mayClean && !maySort ==> fswrites == old(fswrites) && fsc == old(fsc) && fsx == old(fsx)
 //@   ensures [registered_files_kept] forall p Str {fsx[p]}: has(testsRegistry.cleanup, p) ==> fsx[p] == old(fsx)[p]
